@@ -408,7 +408,25 @@ func runC09(c *core.Ctx) core.Meta {
 				}
 			}
 		}
-		if hasCmp {
+		if !hasCmp {
+			// the comparison may sit in a one-expression predicate helper
+			for _, b := range fn.Blocks {
+				for _, in := range b.Instrs {
+					if v, ok := in.(ssa.Value); ok {
+						if body, ok := predicateBody(v); ok {
+							if bo, ok := body.(*ssa.BinOp); ok {
+								x, y := prov.Of(bo.X), prov.Of(bo.Y)
+								if (x == "recv.numCompletedWGs" && y == "recv.numDispatchedWGs") || (y == "recv.numCompletedWGs" && x == "recv.numDispatchedWGs") {
+									hasCmp = true
+								}
+							}
+						}
+					}
+				}
+			}
+		}
+		// the predicate is the candidate with the largest body (a helper that holds only the comparison is part of it)
+		if hasCmp && (kc == nil || len(fn.Blocks) > len(kc.Blocks)) {
 			kc = fn
 		}
 	}
